@@ -120,8 +120,8 @@ def qualified_declarations(path: Path):
     """[(line, kind, fully qualified name)]: namespaces are tracked through `namespace X` / `end X`, and a name written
     `_root_.A.b` is taken as `A.b`."""
     src = strip_lean_comments(path.read_text())
-    events = [(m.start(), "ns", m.group(1)) for m in re.finditer(r"^namespace\s+(\S+)", src, re.M)]
-    events += [(m.start(), "end", m.group(1)) for m in re.finditer(r"^end\s+(\S+)", src, re.M)]
+    events = [(m.start(), "ns", m.group(1)) for m in re.finditer(r"^namespace[ \t]+(\S+)", src, re.M)]
+    events += [(m.start(), "end", m.group(1)) for m in re.finditer(r"^end[ \t]+(\S+)", src, re.M)]
     events += [(m.start(), "decl", m) for m in DECL_RE.finditer(src)]
     stack, res = [], []
     for pos, kind, x in sorted(events, key=lambda e: e[0]):
